@@ -22,12 +22,14 @@
    Repaired in /repo and now covered by the theorems (regression anchors on the old witnesses):
      C15_await_all_now_accepted         (was F3, fix e8b566b)  await-all compared set sizes
      C15_rejected_now_accepted          (was F4, fix 3df3186)  a rejected command left the listener
+     C15_two_forms_now_accepted         (was F5, fix 1b606af)  one directory named "$FP" and "$FP~nick" counted as two
    What IS proved, for ALL histories of unbounded length and any number of directories:
      C15_once                                  at most one completion/failure, on every history whatsoever
      C15_unsubscribes_always                   subscription removed afterwards, on every history whatsoever
      C15_foreign_events_inert_partial          foreign events change nothing;   hypothesis = not F1
      C15_ok_only_after_own_upload_partial      Ok only after the reply and an own UPLOADED; hypothesis = not F1
-     C15_model_meets_oracle_partial            the full statement; hypotheses = not F1, not F2
+     C15_model_meets_oracle_partial            the full statement; hypotheses = not F1, not F2 (directories as names)
+     C15_model_meets_oracle_named_partial      the same for named histories; hypotheses = not F1, not F2
    (the last one contains the completion point: in a conformant history the single ODone sits exactly
    in the record where both `accepted` and the first decision hold, with an outcome allowed by it). *)
 From Coq Require Import List Bool Arith NArith.
@@ -48,6 +50,38 @@ Theorem C15_model_meets_oracle_partial : forall c ops,
   oracle c ops (run c ops) = true.
 Proof. exact model_meets_oracle. Qed.
 Print Assumptions C15_model_meets_oracle_partial.
+
+(* ---- the same for histories as the implementation sees them: directories NAMED "$FP" or "$FP~nick"
+        (control-spec HsDir = LongName / Fingerprint); the oracle judges the history of directories
+        (Spec.C15.canon); the code keys by fingerprint (run_named, fix 1b606af) ---- *)
+Theorem C15_model_meets_oracle_named_partial : forall c ops,
+  wf ops = true ->
+  foreign_uploaded_shared_dir c (canon ops) = false ->
+  own_event_before_reply c (canon ops) = false ->
+  oracle_named c ops (run_named c ops) = true.
+Proof. exact model_meets_oracle_named. Qed.
+Print Assumptions C15_model_meets_oracle_named_partial.
+
+(* any renaming of directory NAMES that keeps each name's fingerprint (injective or not: the form may change
+   from event to event) changes nothing *)
+Theorem C15_names_irrelevant : forall g c ops,
+  (forall d, dir_id (g d) = dir_id d) -> run_named c (map (ren_op g) ops) = run_named c ops.
+Proof. exact names_irrelevant. Qed.
+Print Assumptions C15_names_irrelevant.
+
+(* and the directories themselves are interchangeable: an injective renaming of the keys changes nothing *)
+Theorem C15_directories_interchangeable : forall (f : N -> N) c ops,
+  (forall x y, In x (names_of ops) -> In y (names_of ops) -> f x = f y -> x = y) ->
+  run c (map (ren_op f) ops) = run c ops.
+Proof. exact run_injective_renaming. Qed.
+Print Assumptions C15_directories_interchangeable.
+
+Theorem C15_two_forms_now_accepted :
+  let c := {| c_await := false; c_own := 1; c_early := false; c_shared := false; c_progress := true |} in
+  let ops := [Reply; Ev KUpload 1 3; Ev KUploaded 1 2] in
+  oracle_named c ops (run_named c ops) = true /\ n_dones_of (run_named c ops) = 1%nat.
+Proof. exact two_forms_now_accepted. Qed.
+Print Assumptions C15_two_forms_now_accepted.
 
 (* ---- subscription removed after completion AND after failure, a rejected command included ---- *)
 Theorem C15_unsubscribes_always : forall c ops, unsub_all c false (run c ops) = true.
